@@ -176,7 +176,10 @@ func (c *C17Case) Run() string {
 			if !d.IsNum() {
 				continue
 			}
-			r := &C08Case{Op: "Reduce", DT: d.Name, A: Opnd{Shape: c.Shape, Codes: c.A, L: Layout{Root: "rm"}}, Axes: c.Axes, Via: "method"}
+			r := &C08Case{Op: c.Op, DT: d.Name, A: Opnd{Shape: c.Shape, Codes: c.A, L: Layout{Root: "rm"}}, Axes: c.Axes, Via: "method"}
+			if c.Op == "ReduceSub" && d.IsUnsigned() {
+				continue // differences of small non-negative numbers are not representable
+			}
 			c08Last = Arr{}
 			msg = r.Run()
 			if msg == "" && c08Last.E != nil {
@@ -430,6 +433,15 @@ func TestC17(t *testing.T) {
 		})
 	}
 	cell(t, "C17", "C17.xtype", "reducefn", nCases(20, 200), func(rt *rapid.T) Case { return genC17(rt, "reducefn", "Reduce", "", "", false, false) })
+	cell(t, "C17", "C17.xtype", "reducefn-noncommutative", nCases(30, 300), func(rt *rapid.T) Case {
+		c := genC17(rt, "reducefn", "ReduceSub", "", "", false, false)
+		if len(c.Shape) < 3 { // the middle-axis kernel needs rank 3
+			c.Shape = []int{2, 3, 2}
+			c.A = genCodes(rt, 12, 0, 3, 0, "a3")
+			c.Axes = []int{rapid.IntRange(0, 2).Draw(rt, "axis3")}
+		}
+		return c
+	})
 	for _, iter := range []bool{false, true} {
 		iter := iter
 		cell(t, "C17", "C17.xtype", fmt.Sprintf("getset/iter=%v", iter), nCases(10, 100), func(rt *rapid.T) Case {
